@@ -188,7 +188,7 @@ Print Assumptions C17_bash_no_text.
     aliases, shorts, longs and their aliases of every node) consists of [plain] characters.
     Names are qualified: the two model files reuse the Rust names. *)
 From ClapModel Require Complete.AotTree Complete.AotProofs Complete.TextTree Complete.PathTable Complete.PathTableLex
-  Complete.ElvishModel Complete.ElvishProofs Complete.PowershellModel Complete.PowershellProofs.
+  Complete.BuildTexts Complete.ElvishModel Complete.ElvishProofs Complete.PowershellModel Complete.PowershellProofs.
 
 (** elvish: [el_plain c] = c is neither quote character (39, 34) nor the comment sign (35).  For ANY two assignments of description texts to the
     same built tree (help / about present or absent, empty or not, any characters) the ENTIRE scripts
@@ -282,4 +282,22 @@ Theorem C17_powershell_quote_in_name_refuted :
     skeleton (events ps_step PB s1) <> skeleton (events ps_step PB s2).
 Proof. exact PowershellProofs.powershell_quote_in_name_refuted. Qed.
 Print Assumptions C17_powershell_quote_in_name_refuted.
+(** the class stated on the SOURCE tree (what the user wrote) and the bin name: [Command::build] keeps a
+    tree in the class (the names it generates -- help, version, h, V -- and the space in bin names are plain) *)
+Theorem C17_elvish_generate_structure_src : forall c bin t1 t2 s1 s2,
+  PathTableLex.cmd_plain ElvishProofs.el_plain c = true -> PathTableLex.plainl ElvishProofs.el_plain bin = true ->
+  ElvishModel.generate_elvish c t1 bin = Some s1 -> ElvishModel.generate_elvish c t2 bin = Some s2 ->
+  skeleton (events el_step EB s1) = skeleton (events el_step EB s2) /\
+  final el_step EB s1 = final el_step EB s2.
+Proof. exact ElvishProofs.elvish_generate_structure_src. Qed.
+Print Assumptions C17_elvish_generate_structure_src.
+
+Theorem C17_powershell_generate_structure_src : forall up c bin t1 t2 s1 s2,
+  PathTableLex.cmd_plain PowershellProofs.ps_plain c = true -> PathTableLex.plainl PowershellProofs.ps_plain bin = true ->
+  PowershellModel.generate_powershell up c t1 bin = Some s1 ->
+  PowershellModel.generate_powershell up c t2 bin = Some s2 ->
+  skeleton (events ps_step PB s1) = skeleton (events ps_step PB s2) /\
+  final ps_step PB s1 = final ps_step PB s2.
+Proof. exact PowershellProofs.powershell_generate_structure_src. Qed.
+Print Assumptions C17_powershell_generate_structure_src.
 (* ---- end of the powershell / elvish block ---- *)
